@@ -58,6 +58,14 @@ CHECKS["C08"] = dict(
     ref="DESIGN.md §5 C08",
 )
 
+CHECKS["C04"] = dict(
+    level="exploration",
+    text="Runtime monitoring of DictEncoder/DictDecoder and JsonSerializer/JsonParser on generated models/instances (single objects and lists) for both dict factories: type-exact deep equality after decode (dict route, dict-through-stdlib-json route, JSON text str/bytes routes), an independent JSON-nativeness judge (recursive type check, json.dumps/json.loads). Held on the executions produced.",
+    note="Trusted: harness generator and its JSON admissibility rules (no anyType primitives, no inheritance, at most one class choice per compound field: the decoder's best-match scoring is documented as ambiguous there), CPython json.",
+    technique="runtime monitoring: round-trip oracle + independent JSON-nativeness judge at the API boundary",
+    ref="DESIGN.md §5 C04",
+)
+
 FIX_COMMITS = []  # guarded hook commits in /repo (none: all hooks are installed from the harness side)
 
 
